@@ -50,6 +50,7 @@ type World struct {
 	regexVarNames []string
 	regexByName map[string]string
 	regexInfos map[string]*RegexInfo
+	localRegex map[string]string // pkgname.Func:var -> literal
 }
 
 type FuncSite struct {
@@ -179,7 +180,28 @@ func loadWorld(repo string) (*World, error) {
 	}
 	w.regexByName = map[string]string{}
 	w.regexInfos = map[string]*RegexInfo{}
+	w.localRegex = map[string]string{}
 	w.collectRegexVars()
+	for key, site := range w.funcs {
+		if site.decl == nil || isVerifFile(site.pkg.Fset.Position(site.decl.Pos()).Filename) {
+			continue
+		}
+		_ = key
+		ast.Inspect(site.decl.Body, func(n ast.Node) bool {
+			as, ok := n.(*ast.AssignStmt)
+			if !ok {
+				return true
+			}
+			for i, l := range as.Lhs {
+				if id, ok := l.(*ast.Ident); ok && i < len(as.Rhs) {
+					if lit, ok := mustCompileLiteral(site.pkg.TypesInfo, as.Rhs[i]); ok {
+						w.localRegex[site.pkg.Name+"."+site.name+":"+id.Name] = lit
+					}
+				}
+			}
+			return true
+		})
+	}
 	for _, sf := range w.specList {
 		w.translateSpec(sf)
 	}
